@@ -1,4 +1,4 @@
-//@unit name=dmlwal props=C01,C02,C03,C04
+//@unit name=dmlwal props=C01,C02,C03,C04,C09,C10
 //@strip-pub
 // Unit `dmlwal`: the three row-level write paths DmlExecutor::{insert, update, delete}.
 //   C01/C02 write-ahead rule: the log record naming this table and this row is appended BEFORE the
